@@ -123,6 +123,21 @@ Proof.
   split; [discriminate|]. vm_compute. discriminate.
 Qed.
 
+(* the boolean the correspondence check evaluates on every observed case implies the hypotheses of the theorems *)
+Lemma hyps_ok_sound c : hyps_ok c = true ->
+  wf_tx (c_env c) (c_msg c) (c_opq c) (c_top c) /\ wf_msg (c_msg c) /\ wf_shape (c_msg c)
+  /\ (forall a v, In (a, v) (c_pre c) -> 0 <= v).
+Proof.
+  unfold hyps_ok. intros H.
+  repeat (apply andb_true_iff in H; destruct H as [H ?]).
+  repeat match goal with
+         | X : (_ <=? _) = true |- _ => apply Z.leb_le in X
+         end.
+  unfold wf_tx, wf_opq, wf_msg, wf_shape. repeat split; try assumption.
+  - intros X. match goal with Y : (if m_isETX _ then _ else _) = true |- _ => rewrite X in Y; now apply Z.eqb_eq in Y end.
+  - intros a v HI. match goal with Y : forallb _ _ = true |- _ => rewrite forallb_forall in Y; specialize (Y _ HI); now apply Z.leb_le in Y end.
+Qed.
+
 (* generated side conditions *)
 Lemma callsites_covered_true : callsites_covered = true.
 Proof. vm_compute. reflexivity. Qed.
